@@ -5,7 +5,7 @@ from simple import Simple
 
 S = Simple("C14", "nonce", "nonce.cpp",
            lambda tier: hb.quick_cfgs(),
-           lambda tier: [("c14_sessions", 120000 if tier == "quick" else 1200000, 40), ("c14_helpers", 40000 if tier == "quick" else 400000, 100)],
+           lambda tier: [("c14_sessions", 120000 if tier == "quick" else 4000000, 40), ("c14_helpers", 40000 if tier == "quick" else 1500000, 100)],
            "c14_sessions: Case = (session type in 3 C incremental states + 12 C++ classes (aead/masked/siv/isap x 3), key, start nonce = random prefix || FF^k "
            "for k = 0..16 (every carry-chain length incl. wrap at 2^128), command list from {encrypt packet, decrypt good packet, decrypt forged packet, "
            "set_counter(n), set_nonce(bytes, len 0..40), reinit/re-key}). Model = 16-byte big-endian integer. Packet i must equal the library's one-shot "
